@@ -55,6 +55,22 @@ def program_text(facts, clauses, evidence, pred):
     return "\n".join(lines) + "\n"
 
 
+def lkey(L, level):
+    if level == "list":
+        return tuple(L)
+    if level == "multiset":
+        return tuple(sorted(L))
+    return tuple(sorted(set(L)))
+
+
+def fkey(rep, default):
+    if rep.startswith("ORDER-ONLY"):
+        return "findall:order-differs-from-SLD"
+    if rep.startswith("DUPLICATE-FOLDED"):
+        return "findall:duplicates-folded"
+    return default
+
+
 def parse_list(key):
     m = re.match(r"^q\(\[(.*)\]\)$", key.replace(" ", ""))
     if not m:
@@ -157,7 +173,7 @@ def work(item):
                     rep = replay_one(text, pred, seedstr, vals)
                     if rep:
                         st.ob("refuted", key=okey)
-                        st.violation("findall:order-differs-from-SLD" if rep.startswith("ORDER-ONLY") else "%s:value" % pred,
+                        st.violation(fkey(rep, "%s:value" % pred),
                                      "%s: list [%s]: %s" % (pred, ",".join(L), rep),
                                      {"program": text, "pred": pred, "values": dict((a, str(b)) for a, b in vals.items()), "seed": seedstr})
                     else:
@@ -166,20 +182,20 @@ def work(item):
                     st.ob("inconclusive", key=okey, note="z3 unknown")
             # findall, multiset level (holds also where the order inside the list deviates from SLD order):
             # the lists that are permutations of one multiset together carry exactly its probability
-            if pred == "findall":
+            for level in (("multiset", "set") if pred == "findall" else ()):
                 byms = {}
                 for k, (num, den) in out.results.items():
                     L = parse_list(k)
                     if L is not None:
-                        byms.setdefault(tuple(sorted(L)), []).append((num, den))
+                        byms.setdefault(lkey(L, level), []).append((num, den))
                 ms_events = {}
                 for w, L in enumerate(lists):
-                    ms_events.setdefault(tuple(sorted(L)), [False] * nworlds)[w] = e_tab[w]
+                    ms_events.setdefault(lkey(L, level), [False] * nworlds)[w] = e_tab[w]
                 for ms in sorted(set(byms) | set(ms_events)):
                     parts = byms.get(ms, [])
                     tab = ms_events.get(ms, [False] * nworlds)
                     poly, fun = refsem.poly_of_table(G, tab)
-                    okey = "findall-multiset:%s:%s" % (pkey, ",".join(ms))
+                    okey = "findall-%s:%s:%s" % (level, pkey, ",".join(ms))
                     if not parts:
                         num, den = z3.RealVal(0), None
                     else:
@@ -195,10 +211,11 @@ def work(item):
                         st.ob("proved", key=okey)
                     elif v == "refuted":
                         vals = symsem.model_values(m, params)
-                        rep = _replay_one(text, pred, seedstr, vals, ordered=False)
+                        rep = _replay_one(text, pred, seedstr, vals, level=level)
                         if rep:
                             st.ob("refuted", key=okey)
-                            st.violation("findall:multiset-value", "findall: solutions {%s}: %s" % (",".join(ms), rep),
+                            full = replay_one(text, pred, seedstr, vals) or rep
+                            st.violation(fkey(full, "findall:%s-value" % level), "findall: solutions {%s}: %s" % (",".join(ms), rep),
                                          {"program": text, "pred": pred, "values": dict((a, str(b)) for a, b in vals.items()), "seed": seedstr})
                         else:
                             st.harness_error("C19 multiset model did not replay: %s %s %s" % (text, ms, vals))
@@ -218,7 +235,7 @@ def work(item):
                     rep = replay_one(text, pred, seedstr, vals)
                     if rep:
                         st.ob("refuted", key=okey)
-                        st.violation("findall:order-differs-from-SLD" if rep.startswith("ORDER-ONLY") else "%s:unreported" % pred,
+                        st.violation(fkey(rep, "%s:unreported" % pred),
                                      "%s: solution list %s has positive probability but is not reported :: %s" % (
                             pred, sorted(ev) if pred == "all" else list(ev), rep),
                             {"program": text, "pred": pred, "values": dict((a, str(b)) for a, b in vals.items()), "seed": seedstr})
@@ -239,7 +256,7 @@ def work(item):
                 if r == "sat":
                     rep = replay_one(text, pred, seedstr, {})
                     if rep:
-                        st.violation("findall:order-differs-from-SLD" if rep.startswith("ORDER-ONLY") else "findall:world",
+                        st.violation(fkey(rep, "findall:world"),
                                      "findall list %s: circuit and reference disagree in a world :: %s" % (k, rep),
                                      {"program": text, "pred": pred, "values": {}, "seed": seedstr})
     st["solver_time"] += pv.solver_time
@@ -251,16 +268,38 @@ def replay_one(text, pred, seedstr, vals):
     """Concrete run with the default semirings against exact enumeration; returns a description or None.
     For findall the description starts with 'ORDER-ONLY' when every multiset of solutions has the right
     probability and only the order inside the reported lists differs from the SLD order."""
-    r = _replay_one(text, pred, seedstr, vals, ordered=True)
-    if r and pred == "findall" and _replay_one(text, pred, seedstr, vals, ordered=False) is None:
+    r = _replay_one(text, pred, seedstr, vals, level="list")
+    if r and pred == "findall" and _replay_one(text, pred, seedstr, vals, level="multiset") is None:
         return "ORDER-ONLY " + r
+    if r and pred == "findall" and _replay_one(text, pred, seedstr, vals, level="set") is None:
+        return "DUPLICATE-FOLDED " + r
     return r
 
 
-def _replay_one(text, pred, seedstr, vals, ordered=True):
+def merge_complementary(clauses):
+    """The clause list ProbLog effectively uses: two clauses for the same answer whose bodies are the single
+    complementary literals x and \\+x are folded into one always-true proof (known finding)."""
+    out = list(clauses)
+    changed = False
+    for i, (v1, b1) in enumerate(out):
+        if b1 is None or len(b1) != 1:
+            continue
+        for j in range(i + 1, len(out)):
+            v2, b2 = out[j]
+            if b2 is not None and v2 == v1 and len(b2) == 1 and b2[0][0] == b1[0][0] and b2[0][1] != b1[0][1]:
+                out[i] = (v1, [])
+                out[j] = (v2, None)      # dropped
+                changed = True
+                break
+    return [(v, b) for v, b in out if b is not None], changed
+
+
+def _replay_one(text, pred, seedstr, vals, level="list", transform=None):
     from fractions import Fraction
     rng = random.Random(seedstr)
     facts, clauses, evidence = skeleton(rng)
+    if transform is not None:
+        clauses = transform(clauses)
     prog = list(facts)
     saux = []
     for j, (val, body) in enumerate(clauses):
@@ -282,7 +321,7 @@ def _replay_one(text, pred, seedstr, vals, ordered=True):
     exp = {}
     for w in range(n):
         L = tuple(val for (val, _), s in zip(clauses, saux) if tabs[s][w])
-        key = (L if ordered else tuple(sorted(L))) if pred == "findall" else frozenset(L)
+        key = lkey(L, level) if pred == "findall" else frozenset(L)
         if pred == "all" and not L:
             continue
         t = exp.setdefault(key, [False] * n)
@@ -300,7 +339,7 @@ def _replay_one(text, pred, seedstr, vals, ordered=True):
         L = parse_list(k)
         if L is None:
             continue
-        key = (L if ordered else tuple(sorted(L))) if pred == "findall" else frozenset(L)
+        key = lkey(L, level) if pred == "findall" else frozenset(L)
         if pred == "all" and key in got and v > 1e-9 and got[key] > 1e-9:
             return "solution set %s reported twice with mass" % (sorted(key),)
         got[key] = (got.get(key, 0.0) + v) if pred == "findall" else max(got.get(key, 0.0), v)
